@@ -1,6 +1,7 @@
 // I/O kit: the library's readers/writers behind one run-time switch, plus LogReader/LogWriter
 // (bounds-checked, call-logging, fault-injecting, with a handle channel).
 #pragma once
+#include "kit/allocmeter.h"
 #include "core.h"
 
 #include <fcntl.h>
@@ -61,7 +62,7 @@ struct LogReader {
 
   bool pre(uint8_t kind, uint64_t size, nop::ErrorStatus* e) {
     if (any_error) calls_after_failure++;
-    log.push_back({kind, size});
+    { AllocMeter::Pause hold; log.push_back({kind, size}); }   // the harness's own bookkeeping is not the library's allocation
     if ((long)log.size() - 1 == fault.fail_at) { failed = true; any_error = true; *e = (nop::ErrorStatus)fault.err; return true; }
     return false;
   }
@@ -122,7 +123,7 @@ struct LogWriter {
 
   bool pre(uint8_t kind, uint64_t size, nop::ErrorStatus* e) {
     if (any_error) calls_after_failure++;
-    log.push_back({kind, size});
+    { AllocMeter::Pause hold; log.push_back({kind, size}); }   // the harness's own bookkeeping is not the library's allocation
     if ((long)log.size() - 1 == fault.fail_at) { failed = true; any_error = true; *e = (nop::ErrorStatus)fault.err; return true; }
     return false;
   }
@@ -160,7 +161,7 @@ struct LogWriter {
     auto pe = push_errors.find(ord);
     bool valid = static_cast<bool>(handle);
     int64_t ref = !valid ? (int64_t)nop::kEmptyHandleReference : (ord < refs_to_return.size() ? refs_to_return[ord] : (int64_t)ord);
-    pushed.push_back({valid, (int64_t)handle.get(), ref, out.size()});
+    { AllocMeter::Pause hold; pushed.push_back({valid, (int64_t)handle.get(), ref, out.size()}); }
     if (pe != push_errors.end()) { any_error = true; return (nop::ErrorStatus)pe->second; }
     return ref;
   }
